@@ -90,6 +90,30 @@ JudgeFile(s, F, mach) ==
           <<"P:C16:point", (shape /\ Len(rows) = Len(expS)) => \A k \in 1..Len(rows) : RowPoint(rows[k], L) = expS[k][1]>>,
           <<"P:C16:stamp-sorted", shape => StampsSorted(rows, L, FALSE)>>,
           <<posname, (shape /\ Len(rows) = Len(expS)) => \A k \in 1..Len(rows) : RowPos(rows[k], L) = expS[k][2]>> >>)
+     ELSE IF F.type \in {"union_2", "union_3"} /\ s.plus = 1 THEN
+        \* z_m << (a_m | b_m): the populate takes labels 0 and 1, the union's operands 2 (left) and 3 (right).  One row per element the union READS from
+        \* that operand (its non-empty elements, ascending), stamped with the iteration that delivered it, addressed by its index in the operand fiber
+        LET fb   == Abs(s.ops1[IF F.type = "union_2" THEN "A" ELSE "B"])
+            P    == CoordsOf(Present(fb.e, 0))
+            itf  == SelectSeq(s.files, LAMBDA G : G.rank = F.rank /\ G.type = "iter" /\ G.exists = 1)
+            itr  == IF itf = <<>> THEN <<>> ELSE itf[1].rows
+        IN Fails(<<
+          <<"P:C16:header", F.header = Header(order, L)>>,
+          <<"P:C16:one-row-per-access", shape /\ Len(rows) = Len(P)>>,
+          <<"P:C16:point", (shape /\ Len(rows) = Len(P)) => \A k \in 1..Len(rows) : RowPoint(rows[k], L) = <<P[k]>> >>,
+          <<"P:C16:iter-strict", shape => StampsSorted(rows, L, TRUE)>>,
+          \* the stamp is the stamp of the loop iteration that delivered the coordinate (the iter row with the same point)
+          <<"S:union-stamp", (shape /\ Len(rows) = Len(P) /\ itr # <<>>) => \A k \in 1..Len(rows) :
+                \E j \in 1..Len(itr) : Len(itr[j]) = 2 * L + 1 /\ RowPoint(itr[j], L) = RowPoint(rows[k], L) /\ RowStamp(itr[j], L) = RowStamp(rows[k], L)>>,
+          <<posname, (shape /\ Len(rows) = Len(P)) => \A k \in 1..Len(rows) : RowPos(rows[k], L) = Pos(fb.e, P[k])>> >>)
+     ELSE IF F.type = "populate_1" /\ isOut /\ s.plus = 1 THEN
+        \* the source of the populate is the (lazy) union: one row per delivered coordinate, addressed by its enumeration index
+        Fails(<<
+          <<"P:C16:header", F.header = Header(order, L)>>,
+          <<"P:C16:one-row-per-access", shape /\ Len(rows) = Len(exp)>>,
+          <<"P:C16:point", (shape /\ Len(rows) = Len(exp)) => \A k \in 1..Len(rows) : RowPoint(rows[k], L) = exp[k].point>>,
+          <<"P:C16:stamp-sorted", shape => StampsSorted(rows, L, FALSE)>>,
+          <<posname, (shape /\ Len(rows) = Len(exp)) => \A k \in 1..Len(rows) : RowPos(rows[k], L) = exp[k].pos>> >>)
      ELSE IF F.type \in {"populate_write_0", "populate_read_0"} /\ isOut THEN
         \* destination side: stamp-ordered and well-formed (addresses of an inserting populate are staging addresses)
         Fails(<< <<"P:C16:header", F.header = Header(order, L)>>,
@@ -103,7 +127,7 @@ JudgeSession(s) ==
       mach  == IF s.plus = 1 THEN RunAdd(OpsFrom(s.ops1, names)) ELSE Run(s.expr1, OpsFrom(s.ops1, names), s.order)
       RECURSIVE Cat(_)
       Cat(ss) == IF ss = <<>> THEN <<>> ELSE Head(ss) \o Cat(Tail(ss))
-  IN IF s.abort # 0 \/ s.collect = 0 \/ s.exc # "ok" \/ s.plus = 1 THEN <<>>
+  IN IF s.abort # 0 \/ s.collect = 0 \/ s.exc # "ok" THEN <<>>
      ELSE Cat([k \in 1..Len(s.files) |-> IF s.files[k].level > 0 THEN JudgeFile(s, s.files[k], mach) ELSE <<>>])
 Completed(s) == s.exc = "ok" /\ s.abort = 0 /\ s.collect = 1
 Judge(B) ==
